@@ -27,7 +27,19 @@ fn run(id: &str, tier: Tier, seed: u64, only_root: Option<String>, out: &Out) ->
         "C15" => { c15::run::<CL1024Sha256>(&env); if t { c15::run::<CL2048Sha256>(&env); } }
         "C16" => { c16::run::<CL1024Sha256>(&env); if t { c16::run::<CL2048Sha256>(&env); } }
         "C17" => { c17::run::<CL1024Sha256>(&env); if t { c17::run::<CL2048Sha256>(&env); } }
-        "C18" => { c18::run::<CL1024Sha256>(&env); if t { c18::run::<CL2048Sha256>(&env); c18::run::<CL3072Sha256>(&env); } }
+        "C18" => {
+            // thorough: the three suites run concurrently in ONE process (wall time = the slowest key generation; and state
+            // shared between ciphersuite instantiations shows). VERIF_CL_SUITES=CL1024,CL2048 restricts the set.
+            let sel = std::env::var("VERIF_CL_SUITES").unwrap_or_else(|_| "CL1024,CL2048,CL3072".into());
+            let on = |n: &str| sel.split(',').any(|x| x.trim() == n);
+            if !t { c18::run::<CL1024Sha256>(&env); } else {
+                std::thread::scope(|sc| {
+                    if on("CL1024") { sc.spawn(|| c18::run::<CL1024Sha256>(&env)); }
+                    if on("CL2048") { sc.spawn(|| c18::run::<CL2048Sha256>(&env)); }
+                    if on("CL3072") { sc.spawn(|| c18::run::<CL3072Sha256>(&env)); }
+                });
+            }
+        }
         "C19" => { c19::run::<CL1024Sha256>(&env); if t { c19::run::<CL2048Sha256>(&env); } }
         _ => { out.line(&format!("MACHINERY-ERROR: unknown property {}", id)); return 2; }
     }
